@@ -6,6 +6,7 @@ import (
 	"github.com/pion/rtcp"
 
 	"verifharness/internal/core"
+	"verifharness/internal/gen"
 	"verifharness/internal/mon"
 	"verifharness/internal/ref"
 )
@@ -480,6 +481,65 @@ func runC16(c *core.Ctx) {
 			cs.DistinctN(96)
 		})
 	}
+	// magic words as field values: an SSRC that happens to spell "REMB", a NACK pair that looks like a
+	// header word. Through the type's own decoder and through the datagram decoder, alone and in
+	// lists of 1..3 entries, with sender / media SSRC 0, the word itself, or 1, and every FIR
+	// sequence number.
+	c.Section("magic-values", uint64(len(core.MagicWords)), func(cs *core.Case) {
+		w := core.MagicWords[cs.Idx]
+		rt := func(p rtcp.Packet, what string) bool {
+			out, err, pan := gMarshal(p)
+			if pan != "" || err != nil {
+				cs.Fail("magic/marshal", core.W{"value": vdump(p), "error": errStr(err), "panic": pan})
+				return false
+			}
+			k := gen.KindOf(p)
+			own, oerr, opan := gUnmarshalOwn(k, cloneBytes(out))
+			ps, uerr, upan := gUnmarshal(cloneBytes(out))
+			cs.Eval(3)
+			if opan != "" || upan != "" {
+				cs.Fail("panic/Unmarshal", core.W{"value": vdump(p), "octets": mon.Hex(out, 64), "panic": opan + upan})
+				return false
+			}
+			okOwn := oerr == nil && mon.SemEqual(own, p)
+			okDg := uerr == nil && len(ps) == 1 && (mon.SemEqual(ps[0], p) || k == gen.SLI) // SLI: the datagram path is known finding KF1 (C02's business)
+			return cs.Check(okOwn && okDg, "magic/"+what, func() core.W {
+				return core.W{"value": vdump(p), "octets": mon.Hex(out, 64), "own_error": errStr(oerr), "own": vdump(own), "datagram_error": errStr(uerr), "datagram": vdump(ps)}
+			})
+		}
+		for _, media := range []uint32{0, w, 1} {
+			for _, sender := range []uint32{0, w, 1} {
+				for n := 1; n <= 3; n++ {
+					for seq := 0; seq < 256; seq++ {
+						f := &rtcp.FullIntraRequest{SenderSSRC: sender, MediaSSRC: media}
+						for i := 0; i < n; i++ {
+							f.FIR = append(f.FIR, rtcp.FIREntry{SSRC: w, SequenceNumber: uint8(seq + i)})
+						}
+						if !rt(f, "FIR") {
+							return
+						}
+					}
+					nk := &rtcp.TransportLayerNack{SenderSSRC: sender, MediaSSRC: media}
+					sl := &rtcp.SliceLossIndication{SenderSSRC: sender, MediaSSRC: media}
+					for i := 0; i < n; i++ {
+						nk.Nacks = append(nk.Nacks, rtcp.NackPair{PacketID: uint16(w >> 16), LostPackets: rtcp.PacketBitmap(w)})
+						sl.SLI = append(sl.SLI, rtcp.SLIEntry{First: uint16(w >> 19), Number: uint16(w >> 6 & 0x1FFF), Picture: uint8(w & 0x3F)})
+					}
+					if !rt(nk, "NACK") || !rt(sl, "SLI") {
+						return
+					}
+				}
+				if !rt(&rtcp.PictureLossIndication{SenderSSRC: sender, MediaSSRC: media}, "PLI") || !rt(&rtcp.RapidResynchronizationRequest{SenderSSRC: sender, MediaSSRC: media}, "RRR") {
+					return
+				}
+				rr := &rtcp.ReceiverReport{SSRC: sender, Reports: []rtcp.ReceptionReport{{SSRC: media, LastSequenceNumber: w, Jitter: w, LastSenderReport: w, Delay: w}}}
+				if !rt(rr, "RR") || !rt(&rtcp.Goodbye{Sources: []uint32{sender, media, w}}, "BYE") || !rt(&rtcp.ReceiverEstimatedMaximumBitrate{SenderSSRC: sender, Bitrate: 1000, SSRCs: []uint32{media, w}}, "REMB") {
+					return
+				}
+			}
+		}
+		cs.DistinctN(9 * (3*256 + 12))
+	})
 	c.Once("fir-walking", func(cs *core.Case) {
 		p := &rtcp.FullIntraRequest{FIR: make([]rtcp.FIREntry, 1)}
 		for bit := 0; bit < 32; bit++ {
